@@ -197,6 +197,8 @@ def check_case(case):
     if k == "text":
         v, verdict, calls = check_text(case["text"], case.get("depth", 2), case)
         return v
+    if k == "paths":
+        return [x for x in shard(("paths",)).violations if x["case"].get("name") == case.get("name")]
     if k == "bytes":
         data = bytes.fromhex(case["data"])
         if case.get("real"):
@@ -285,6 +287,52 @@ def shard(s):
             verdict = consume(text, 1, {"kind": "text", "depth": 1})
             if verdict == ACCEPT:
                 acc.nontrivial += 1
+    elif kind == "paths":
+        # how the file is NAMED: the same file through ./, //, dir/../ and a directory symlink followed by .. (which the operating
+        # system resolves through the link), relative and absolute, with a decoy of the same name where a textual clean-up would land
+        from localcider.backend.seqfileparser import SequenceFileParser
+        from localcider.sequenceParameters import SequenceParameters as SP
+        from localcider.sequencePermutants import SequencePermutants
+        import localcider.backend.seqfileparser as P
+        if isinstance(getattr(P, "open", None), _FS):
+            del P.open
+        d = tempfile.mkdtemp(prefix="vmc_c14_")
+        old = os.getcwd()
+        try:
+            os.makedirs(os.path.join(d, "a", "sub"))
+            os.makedirs(os.path.join(d, "b"))
+            for rel, text in (("a/p.fasta", ">x\nAAAAKK\n"), ("b/p.fasta", ">y\nWWWW\n"), ("p.fasta", ">decoy\nCCCCC\n"), ("a/sub/p.fasta", "GGGG\n")):
+                with open(os.path.join(d, rel), "w") as f:
+                    f.write(text)
+            os.symlink(os.path.join(d, "a", "sub"), os.path.join(d, "link"))
+            os.symlink(os.path.join(d, "b"), os.path.join(d, "a", "sub", "up"))
+            os.chdir(d)
+            spellings = [("a/p.fasta", "AAAAKK"), ("./a/p.fasta", "AAAAKK"), ("a//p.fasta", "AAAAKK"), ("a/./p.fasta", "AAAAKK"), ("b/../a/p.fasta", "AAAAKK"),
+                         ("link/../p.fasta", "AAAAKK"), (os.path.join(d, "link", "..", "p.fasta"), "AAAAKK"), ("link/p.fasta", "GGGG"),
+                         ("link/up/p.fasta", "WWWW"), ("link/up/../p.fasta", "CCCCC"), (os.path.join(d, "a", "p.fasta"), "AAAAKK"), ("a/sub/../../b/p.fasta", "WWWW")]
+            for name, want in spellings:
+                case = {"kind": "paths", "name": name.replace(d, "<tmp>")}
+                for route, f_ in (("parseSeqFile", lambda: SequenceFileParser().parseSeqFile(name, silent=True)),
+                                  ("SequenceParameters(sequenceFile)", lambda: SP(sequenceFile=name).get_sequence()),
+                                  ("SequencePermutants(sequenceFile)", lambda: "".join(sorted(SequencePermutants(sequenceFile=name).SeqObj.seq)))):
+                    acc.states += 1
+                    acc.traces += 1
+                    acc.transitions += 1
+                    acc.evaluations += 1
+                    acc.nontrivial += 1
+                    acc.out(ACCEPT)
+                    try:
+                        got = f_()
+                    except Exception as e:  # noqa
+                        acc.viol("file-name-spelling", "%s(%r) raised %r although the operating system resolves the name to a valid file" % (route, case["name"], e), case)
+                        continue
+                    exp = want if not route.startswith("SequencePermutants") else "".join(sorted(want))
+                    if got != exp:
+                        acc.viol("file-name-spelling", "%s(%r) read %r; the file the operating system resolves that name to holds %r"
+                                 % (route, case["name"], got, exp), case)
+        finally:
+            os.chdir(old)
+            shutil.rmtree(d, True)
     elif kind == "bytes":
         d = tempfile.mkdtemp(prefix="vmc_c14_")
         try:
@@ -394,6 +442,7 @@ def run(tier, seed, t0):
     shards.append(("real", real))
     shards.append(("bytes",))
     shards.append(("alphabets",))
+    shards.append(("paths",))
     shards.append(("bigtext", (70000, 140000) if tier == "quick" else (66000, 70000, 140000, 300000, 1100000)))
     for n_ in ((11000,) if tier == "quick" else (9000, 12000, 20000, 35000, 70000)):
         shards.insert(0, ("longfiles", (n_,)))
@@ -404,7 +453,7 @@ def run(tier, seed, t0):
         rule="every file text of length 0..%d over %d symbols %r served through an in-memory open(), every structured layout "
              "(header x every line length x 10-residue spacing x numbering x blank lines x trailing newline x stop) of %s, every "
              "single-character substitution by %d characters and 6 insertions at every position of sampled-by-index layouts, and "
-             "%d real temporary files; files of 11000 residues (thorough: to 70000) in four layouts with four endings; files whose text exceeds 64/128 KiB (thorough: 1 MiB) around a 3000-residue sequence (long description line, blank-padded records, thousands of blank lines, CRLF); the silent flag passed by keyword, positionally or left at its default; 30-residue files over every single residue, every pair of residues and nucleotide-/numeral-like sub-alphabets (parser and constructor route); 13 byte strings that are not text in the read encoding (lone continuation / lead bytes, Latin-1 letters, surrogate, overlong) inserted and substituted at every position of the sequence lines of 4 host files (in-memory open honouring the encoding/errors arguments the library passes, and real binary files) must be rejected; reference parser (vmc/refmodel/parser.py) gives must-accept(seq) / must-reject / dont-care; "
+             "%d real temporary files; files of 11000 residues (thorough: to 70000) in four layouts with four endings; files whose text exceeds 64/128 KiB (thorough: 1 MiB) around a 3000-residue sequence (long description line, blank-padded records, thousands of blank lines, CRLF); the silent flag passed by keyword, positionally or left at its default; twelve spellings of file names (./, //, dir/../, a directory symlink followed by .., absolute) through three routes with a decoy where a textual clean-up would land; 30-residue files over every single residue, every pair of residues and nucleotide-/numeral-like sub-alphabets (parser and constructor route); 13 byte strings that are not text in the read encoding (lone continuation / lead bytes, Latin-1 letters, surrogate, overlong) inserted and substituted at every position of the sequence lines of 4 host files (in-memory open honouring the encoding/errors arguments the library passes, and real binary files) must be rejected; reference parser (vmc/refmodel/parser.py) gives must-accept(seq) / must-reject / dont-care; "
              "accepted files up to length %d are also loaded with SequenceParameters(sequenceFile=...) and compared (sequence, and "
              "a 32-entry API vector up to length %d) with SequenceParameters(seq); non-trivial = accepted files that needed "
              "parsing (line breaks, spaces, digits, stop, header)" % (
